@@ -3,7 +3,9 @@ package main
 import (
 	"fmt"
 	"html/template"
+	"math"
 	"regexp"
+	"sort"
 	"strconv"
 	"strings"
 	"time"
@@ -181,6 +183,8 @@ func memorysize(data map[string]any, key, oldkey string, example string) string 
 			i64 = i
 		case int:
 			i64 = int64(i)
+		case float64: // JSON input
+			i64 = int64(i)
 		}
 		txt, _ := config.MemorySize(i64).MarshalText()
 		return fmt.Sprintf(`%s: %s`, key, string(txt))
@@ -266,8 +270,17 @@ func renderMap(data map[string]any, key, oldkey string, example string) string {
 	var mapValues map[string]string
 	comment := ""
 	if value, ok := data[key]; ok {
-		mapValues = value.(map[string]string)
-	} else {
+		switch mv := value.(type) {
+		case map[string]string:
+			mapValues = mv
+		case map[string]any: // what the v1 loaders produce
+			mapValues = make(map[string]string, len(mv))
+			for k, v := range mv {
+				mapValues[k] = fmt.Sprintf("%v", v)
+			}
+		}
+	}
+	if mapValues == nil {
 		values := strings.Split(example, ",")
 		mapValues = make(map[string]string)
 		for _, v := range values {
@@ -276,11 +289,21 @@ func renderMap(data map[string]any, key, oldkey string, example string) string {
 			comment = "# "
 		}
 	}
-	var output []string
-	for k, v := range mapValues {
-		output = append(output, fmt.Sprintf("%s %s: %s", comment, k, v))
+	keys := make([]string, 0, len(mapValues))
+	for k := range mapValues {
+		keys = append(keys, k)
 	}
-	return "# " + key + ":\n      " + strings.Join(output, "\n      ")
+	sort.Strings(keys)
+	var output []string
+	for _, k := range keys {
+		if comment == "" {
+			output = append(output, fmt.Sprintf("%s: %s", yamlf(k), yamlf(mapValues[k])))
+		} else {
+			output = append(output, fmt.Sprintf("%s %s: %s", comment, k, mapValues[k]))
+		}
+	}
+	// a map taken from the input is real configuration; only the example is a comment
+	return comment + key + ":\n      " + strings.Join(output, "\n      ")
 }
 
 func renderStringarray(data map[string]any, key, oldkey string, example string) string {
@@ -290,7 +313,7 @@ func renderStringarray(data map[string]any, key, oldkey string, example string) 
 		switch value := v.(type) {
 		case []interface{}:
 			for _, s := range value {
-				sa = append(sa, s.(string))
+				sa = append(sa, fmt.Sprintf("%v", s))
 			}
 		case []string:
 			sa = value
@@ -304,7 +327,8 @@ func renderStringarray(data map[string]any, key, oldkey string, example string) 
 
 	var output []string
 	for _, s := range sa {
-		output = append(output, fmt.Sprintf("%s- %s", comment, s))
+		// quote whatever YAML would not read back as the same string ("*", digits, true...)
+		output = append(output, fmt.Sprintf("%s- %s", comment, yamlf(s)))
 	}
 	return comment + key + ":\n      " + strings.Join(output, "\n      ")
 }
@@ -422,9 +446,16 @@ func wrapForDocs(s string) string {
 func yamlf(a any) string {
 	switch v := a.(type) {
 	case string:
-		pat := regexp.MustCompile("^[a-zA-z0-9]+$")
+		// a string may only be written plain when YAML reads it back as the
+		// same string: it starts with a letter (so it is not a number), has
+		// only letters and digits, and is not a boolean or null word
+		pat := regexp.MustCompile("^[a-zA-Z][a-zA-Z0-9]*$")
 		if pat.MatchString(v) {
-			return v
+			switch strings.ToLower(v) {
+			case "true", "false", "null", "yes", "no", "on", "off", "y", "n":
+			default:
+				return v
+			}
 		}
 		hasSingleQuote := strings.Contains(v, "'")
 		hasDoubleQuote := strings.Contains(v, `"`)
@@ -437,7 +468,12 @@ func yamlf(a any) string {
 	case int:
 		return _formatIntWithUnderscores(v)
 	case float64:
-		return fmt.Sprintf("%f", v)
+		// JSON input yields float64 for every number; an integral value must
+		// not be written with a fraction (integer settings reject 1000.000000)
+		if v == math.Trunc(v) && math.Abs(v) < 1e15 {
+			return fmt.Sprintf("%d", int64(v))
+		}
+		return strconv.FormatFloat(v, 'f', -1, 64)
 	case time.Duration:
 		return v.String()
 	default:
